@@ -36,6 +36,10 @@ def streams(tier, rng, P, only=None, cases=None):
             ([('orel', 1)] * 7 + [('orel', -1), ('note', 'c', 0, False, None, None, None, None, None)], None), ([('v', 124), ('vrel', 1), ('vrel', -1), ('note', 'c', 0, False, None, None, None, None, None)], None), ([('v', 3), ('vrel', -1), ('vrel', 1), ('note', 'c', 0, False, None, None, None, None, None)], None),
             ([('v', 120), ('vrel', 1), ('vrel', 1), ('vrel', -1), ('vrel', -1), ('note', 'c', 0, False, None, None, None, None, None), ('orel', -1), ('orel', -1), ('orel', -1), ('orel', -1), ('orel', -1), ('orel', -1), ('orel', 1), ('note', 'c', 0, False, None, None, None, None, None)], None),
         ]
+        # a per-note slot left empty takes the track's value, also when a later slot of the same note is written (`t10 c4,,,,6`)
+        N_ = lambda nm, q=None, v=None, tm=None, o=None: ('note', nm, 0, False, None, q, v, tm, o)
+        fixed += [([('t', 10), N_('c', o=6), N_('d')], None), ([('t', 7), N_('e', v=64, o=4), N_('f', q=50, o=5), N_('g', tm=0, o=5), N_('a')], None),
+                  ([('q', 50), ('v', 33), ('t', 4), N_('c', o=3), N_('d', v=90, o=3), N_('e', q=100, o=3), N_('f', tm=2, o=3)], None)]
         for j, (prog, _) in enumerate(fixed):
             src = mml.pr(prog)
             cs.append(dict(req="run " + hx(src), src=src, show=src, sexp=mml.sexp(prog), key="fixed%d" % j))
